@@ -37,6 +37,9 @@ PADDING = [
 
 def run(ctx):
     rep = ctx.report
+    from .common import check_record_leaks as _recleaks
+    rep.rule('R12.13', 'a Record built for a user callable never leaves the operator: output rows are plain tuples')
+    ctx.floor('record_building_functions', _recleaks(ctx, rep, 'R12.13', ctx.functions(['petl.transform', 'petl.util.base'])), 8)
     rep.rule('R12.11', 'cells are compared with the caller\'s `missing` value by equality, never by identity')
     rep.rule('R12.12', 'rowgetter returns selectors that raise IndexError on a short row (subscript / itemgetter, never a slice)')
     r1211(ctx, rep)
